@@ -3,8 +3,8 @@ From stdpp Require Import gmap list.
 From Aldrin Require Import gen.ClientConsts Broker.Model Proto.ClientView Proto.ListenerProofs Proto.Flow.
 Local Open Scope N_scope.
 
-Definition unchanged_flags : flags := {| fl_refused_closed := false; fl_close_asserts := true |}.
-Definition fixA_flags : flags := {| fl_refused_closed := true; fl_close_asserts := true |}.
+Definition unchanged_flags : flags := {| fl_refused_closed := false; fl_close_asserts := true; fl_cancel := true |}.
+Definition fixA_flags : flags := {| fl_refused_closed := true; fl_close_asserts := true; fl_cancel := true |}.
 
 (* F1: create a channel claiming the sender, drop the pending sender, claim the receiver and await
    the (refused) claim; the end dropped by the error path closes itself with claimed = true *)
@@ -19,6 +19,12 @@ Proof. vm_compute. reflexivity. Qed.
 
 Definition cres_ok (r : cres) : bool := match r with COk _ => true | _ => false end.
 
+(* the refused claim is awaited: no claim future is dropped in this schedule *)
+Lemma refused_claim_awaited_panics :
+  run {| fl_refused_closed := false; fl_close_asserts := true; fl_cancel := false |} (created 7 1 CSender []) w_refused_claim
+  = CPanic 1 S_CLOSE_ABSENT.
+Proof. vm_compute. reflexivity. Qed.
+
 Lemma refused_claim_fixed :
   cres_ok (run fixA_flags (created 7 1 CSender []) w_refused_claim) = true.
 Proof. vm_compute. reflexivity. Qed.
@@ -30,8 +36,9 @@ Definition w_cancelled_claim : list cstep :=
    SApp 1 (AClaim 1 16); SApp 1 (ADrop 1); SProc 1; SProc 1; SBroker 1; SBroker 1; SRecv 1; SRecv 1].
 
 Lemma cancelled_claim_panics fl :
-  fl_close_asserts fl = true -> run fl (created 7 1 CSender []) w_cancelled_claim = CPanic 1 S_CLOSE_ABSENT.
-Proof. destruct fl as [[] []]; intros H; try discriminate H; vm_compute; reflexivity. Qed.
+  fl_close_asserts fl = true -> fl_cancel fl = true ->
+  run fl (created 7 1 CSender []) w_cancelled_claim = CPanic 1 S_CLOSE_ABSENT.
+Proof. destruct fl as [[] [] []]; intros H H'; try discriminate H; try discriminate H'; vm_compute; reflexivity. Qed.
 
 (* F2b: a client that holds the established sender binds the sender end again, starts a claim and
    drops it; the broker answers AlreadyClaimed and then closes the end the client legitimately
@@ -41,8 +48,9 @@ Definition w_double_bind : list cstep :=
    SApp 1 (ABind ESender); SApp 1 (AClaim 2 0); SApp 1 (ADrop 2); SProc 1; SProc 1; SBroker 1; SBroker 1;
    SApp 1 (ASend 0 5); SRecv 1; SRecv 1; SProc 1].
 
-Lemma double_bind_panics fl : run fl (created 7 1 CSender []) w_double_bind = CPanic 1 S_SEND_ITEM_ABSENT.
-Proof. destruct fl as [[] []]; vm_compute; reflexivity. Qed.
+Lemma double_bind_panics fl :
+  fl_cancel fl = true -> run fl (created 7 1 CSender []) w_double_bind = CPanic 1 S_SEND_ITEM_ABSENT.
+Proof. destruct fl as [[] [] []]; intros H; try discriminate H; vm_compute; reflexivity. Qed.
 
 (* the listener theorem in the form Props/C06.v states *)
 Lemma listeners_ok k ops : exists z, lrun k lcreated ops = LOk z.
@@ -54,7 +62,7 @@ Qed.
 (* whichever shape the translator reads: the F1 witness panics exactly on (refused end dropped
    claimed and Open) + (close reply asserts) *)
 Definition f1_statement (refused_closed asserts : bool) : Prop :=
-  let fl := {| fl_refused_closed := refused_closed; fl_close_asserts := asserts |} in
+  let fl := {| fl_refused_closed := refused_closed; fl_close_asserts := asserts; fl_cancel := true |} in
   if refused_closed then cres_ok (run fl (created 7 1 CSender []) w_refused_claim) = true
   else if asserts then run fl (created 7 1 CSender []) w_refused_claim = CPanic 1 S_CLOSE_ABSENT
        else cres_ok (run fl (created 7 1 CSender []) w_refused_claim) = true.
